@@ -222,8 +222,8 @@ def run_float(ctx, nbatches=None, nstreams=None):
         "binary32 sources as their exact dyadic value), or at one of the tie-preserving perturbed inputs (source/destination alpha +-2^-20, "
         "source/destination colour scaled by 1+-2^-20, all 80 combinations, plus mask alpha/colour) -- verdict okp; for binary32 destinations "
         "also within one step of the interval spanned by those evaluations (okh).  Single colour channels are never perturbed alone: that "
-        "would turn an exactly grey colour into a saturated one and accept a wrong set_sat on greys.  On the unchanged tree no request "
-        "needed okp/okh (see float_verdict_histogram)",
+        "would turn an exactly grey colour into a saturated one and accept a wrong set_sat on greys.  float_verdict_histogram counts how "
+        "often okp/okh were needed (quick tier, unchanged tree: never; thorough: a handful of COLOR_DODGE cases with sa-s << sa)",
         "float_*: COLOR_DODGE, COLOR_BURN, SOFT_LIGHT and HSL_* on operands that are not premultiplied colours: allowance 2^-8 when every "
         "colour is at most 4x its alpha, not judged (verdict skip, counted) beyond that -- the library's binary32 result is dominated by "
         "cancellation there; the property speaks of premultiplied inputs",
